@@ -4,6 +4,7 @@ import time
 import traceback
 import z3
 
+from .kinds import safe_forall
 from .kinds import (V, VNone, NONE, VTuple, VList, VDict, VFunc, VClass, VModule, VExc, Kind,
                     INT, BOOL, STR, REAL, Ref, Seq, SetK, Map, Opt, PyKind, RefSort, NULL,
                     const, concrete, fresh, fresh_name)
@@ -283,6 +284,33 @@ def discharge(axioms, pc, cond, timeout):
     hyps = ax + list(pc)
     ms = lambda: (time.time() - t0) * 1000
     quantified = any(has_quantifier(h) for h in hyps) or has_quantifier(cond)
+    r_first, m_first = _solve(hyps, cond, min(timeout, 2500))
+    if r_first == z3.unsat:
+        return "proved", None, ms(), True
+    if r_first == z3.sat:
+        return "failed", m_first, ms(), True
+    if quantified:
+        # cheap attempts with fewer hypotheses first (sound: hypotheses are only dropped): the quantifier-free part,
+        # then the quantified facts within one / two steps of the goal's symbols
+        ground0 = [h for h in hyps if not has_quantifier(h)]
+        r0, _ = _solve(ground0, cond, 1500)
+        if r0 == z3.unsat:
+            return "proved", None, ms(), True
+
+        def special(names):
+            return {n for n in names if "!" in n or n.startswith(("mem<", "memidx<", "card<", "prefix_", "map_idx", "otp_",
+                                                                 "str_", "int_str", "bridged_form", "params_objects"))}
+        qh = [(h, special(decl_names([h]))) for h in hyps if has_quantifier(h)]
+        cone = special(decl_names([cond] + ground0))
+        for rounds in (1, 2):
+            sel = [h for h, ss in qh if ss & cone]
+            if len(sel) < len(qh):
+                r1, _ = _solve(ground0 + sel, cond, 3000, **{"smt.mbqi": False})
+                if r1 == z3.unsat:
+                    return "proved", None, ms(), True
+            for h, ss in qh:
+                if ss & cone:
+                    cone = cone | ss
     first = [({}, min(timeout, 5000)), ({"smt.mbqi": False, "smt.random_seed": 7}, min(timeout, 5000))]
     later = [({"smt.random_seed": 3}, timeout), ({"smt.mbqi": False, "smt.random_seed": 11}, timeout)]
     for opts, to in first:
@@ -575,7 +603,7 @@ def contract_handler(c):
                 finally:
                     eng.entry_state = saved
                 guards = [g for _, g in bvs]
-                fact = z3.ForAll([b for b, _ in bvs], z3.Implies(z3.And(guards + reqs), z3.And(ens) if ens else z3.BoolVal(True)))
+                fact = safe_forall([b for b, _ in bvs], z3.Implies(z3.And(guards + reqs), z3.And(ens) if ens else z3.BoolVal(True)))
                 st.assume(fact)
                 st.memo[memo_key] = result
             finally:
